@@ -16,11 +16,12 @@ structure RelP (pend : List Nat) (m : State) (j : Mon) : Prop where
   rate : j.rate = m.vars.map (·.rate)
   cur : j.cur = m.vars.map (·.value)
   lcLen : j.lastChange.length = m.vars.length
-  vars : ∀ i v, m.vars[i]? = some v → VarOk m.now j.lastTrig j.lastChange i v
+  vars : ∀ i v, m.vars[i]? = some v → VarOk m.now j.lastTrig j.lastChange j.pendingChg i v
   subs : SubsOk m j.subs
   vals : ∀ s ∈ m.subs, ∀ sm, j.subs[s.sid]? = some sm → ∀ (i : Nat) (v : Var), m.vars[i]? = some v →
     v.evented = true → v.deferred = none → i ∉ pend → sm.lastVals[i]? = some v.value
   pnd : ∀ x ∈ pend, ∃ v, m.vars[x]? = some v ∧ v.evented = true ∧ v.deferred = none ∧ v.lastSent + v.rate ≤ m.now
+    ∧ ∃ n, j.pendingChg[x]? = some n ∧ 0 < n
   nodup : pend.Nodup
 
 theorem RelP.of_rel {m : State} {j : Mon} (h : Rel m j) (hn : j.now = m.now) : RelP [] m j :=
@@ -60,11 +61,15 @@ theorem assignP_rel (pend pend' : List Nat) (m : State) (j : Mon) (x : Nat) (val
       have := h.vars i a hi
       exact ⟨this.sent_le, this.trig, fun f hf => by
         obtain ⟨a1, a2, a3, a4⟩ := this.dfr f hf
-        exact ⟨a1, a2, by show _ ≤ (j.lastChange.set x j.now).getD i 0; rw [getD_set_ne _ _ _ _ _ hne]; exact a3, a4⟩⟩
+        exact ⟨a1, a2, by show _ ≤ (j.lastChange.set x j.now).getD i 0; rw [getD_set_ne _ _ _ _ _ hne]; exact a3, a4⟩,
+        by show ∃ n, (j.pendingChg.modify x (· + 1))[i]? = some n ∧ _
+           rw [pc_modify_ne _ _ _ _ hne]; exact this.pc⟩
     · intro a ha
       rw [hx] at ha; cases ha
       have := h.vars x v0 hx
-      refine ⟨by rw [(hg _).2.2.2]; exact this.sent_le, by rw [(hg _).2.2.2]; exact this.trig, fun f hf => ?_⟩
+      obtain ⟨n0, hn0, _⟩ := this.pc
+      refine ⟨by rw [(hg _).2.2.2]; exact this.sent_le, by rw [(hg _).2.2.2]; exact this.trig, fun f hf => ?_,
+        ⟨n0 + 1, pc_modify_self _ _ _ _ hn0, fun _ => Nat.succ_pos _⟩⟩
       obtain ⟨b1, b2, b3⟩ := hd f hf
       refine ⟨by rw [(hg _).1]; exact b1, by rw [(hg _).2.2.2, (hg _).2.1]; exact b2, ?_, b3⟩
       show _ ≤ (j.lastChange.set x j.now).getD x 0
@@ -80,17 +85,20 @@ theorem assignP_rel (pend pend' : List Nat) (m : State) (j : Mon) (x : Nat) (val
       · exact absurd hdn hq
       · exact absurd hq hnp
   · intro y hy
+    obtain ⟨nx, hnx, _⟩ := (h.vars x v0 hx).pc
     have hold : ∀ y, y ∈ pend → ∃ v, (m.vars.modify x (fun v => g { v with value := some val }))[y]? = some v
-        ∧ v.evented = true ∧ v.deferred = none ∧ v.lastSent + v.rate ≤ m.now := by
+        ∧ v.evented = true ∧ v.deferred = none ∧ v.lastSent + v.rate ≤ m.now
+        ∧ ∃ n, (j.pendingChg.modify x (· + 1))[y]? = some n ∧ 0 < n := by
       intro y hy
-      obtain ⟨v, hv, h1, h2, h3⟩ := h.pnd y hy
+      obtain ⟨v, hv, h1, h2, h3, n, hn, hpos⟩ := h.pnd y hy
       by_cases hyx : y = x
       · subst hyx
         rw [hx] at hv; cases hv
         refine ⟨g { v0 with value := some val }, ?_, by rw [(hg _).1]; exact h1, hkeep hy,
-          by rw [(hg _).2.2.2, (hg _).2.1]; exact h3⟩
+          by rw [(hg _).2.2.2, (hg _).2.1]; exact h3, ⟨nx + 1, pc_modify_self _ _ _ _ hnx, Nat.succ_pos _⟩⟩
         rw [List.getElem?_modify_eq, hx]; rfl
-      · exact ⟨v, by rw [List.getElem?_modify_ne _ _ (fun e => hyx e.symm)]; exact hv, h1, h2, h3⟩
+      · exact ⟨v, by rw [List.getElem?_modify_ne _ _ (fun e => hyx e.symm)]; exact hv, h1, h2, h3,
+          ⟨n, by rw [pc_modify_ne _ _ _ _ hyx]; exact hn, hpos⟩⟩
     rcases hpend with e | ⟨e, _, h1, h2, h3⟩
     · rw [e] at hy; exact hold y hy
     · rw [e] at hy
@@ -99,7 +107,7 @@ theorem assignP_rel (pend pend' : List Nat) (m : State) (j : Mon) (x : Nat) (val
       · simp only [List.mem_singleton] at hy
         subst hy
         refine ⟨g { v0 with value := some val }, ?_, by rw [(hg _).1]; exact h1, h2,
-          by rw [(hg _).2.2.2, (hg _).2.1]; exact h3⟩
+          by rw [(hg _).2.2.2, (hg _).2.1]; exact h3, ⟨nx + 1, pc_modify_self _ _ _ _ hnx, Nat.succ_pos _⟩⟩
         rw [List.getElem?_modify_eq, hx]; rfl
   · rcases hpend with e | ⟨e, hn, _⟩
     · rw [e]; exact h.nodup
@@ -145,7 +153,7 @@ theorem assignMany_ok : ∀ (l : List (Nat × Val)) (m : State) (pend : List Nat
               intro e; rw [e] at hc; cases hc
             · right; exact hc
           · intro hp
-            obtain ⟨v, hv, _, h2, _⟩ := h.pnd x hp
+            obtain ⟨v, hv, _, h2, _, _⟩ := h.pnd x hp
             rw [hx] at hv; cases hv; exact h2
         · rw [if_neg hc]
           simp only [Bool.or_eq_true, Bool.not_eq_true', List.contains_eq_mem, decide_eq_true_eq, not_or,
@@ -236,13 +244,13 @@ theorem flush_ok (m : State) (j : Mon) (D : List Nat) (h : RelP D m j) :
   -- the trigger observations
   have hT := trigs_ok m.now D j h.nodup (by rw [h.now]; exact Int.le_refl _) (by rw [h.tgt]; exact Int.le_refl _) (by
       intro x hx
-      obtain ⟨v, hv, e1, _, e3⟩ := h.pnd x hx
-      refine ⟨by rw [h.ev, getD_map_of_getElem? _ _ _ _ _ hv]; exact e1, ?_⟩
+      obtain ⟨v, hv, e1, _, e3, hpc⟩ := h.pnd x hx
+      refine ⟨by rw [h.ev, getD_map_of_getElem? _ _ _ _ _ hv]; exact e1, ?_, hpc⟩
       rcases (h.vars x v hv).trig with e | e
       · left; exact e
       · right; refine ⟨v.lastSent, e, ?_⟩
         rw [h.rate, getD_map_of_getElem? _ _ _ _ _ hv]; exact e3)
-  obtain ⟨t1, t2, t3, t4, t5, t6, t7, t8, t9, t10, t11⟩ := hT
+  obtain ⟨t1, t2, t3, t4, t5, t6, t7, t8, t9, t10, ⟨g, hg, t11⟩, t12, t13⟩ := hT
   have hnow2 : (j.obsRun (D.map (fun x => Obs.trig x m.now))).now = m.now := by
     by_cases hD : D = []
     · subst hD; exact h.now
@@ -257,7 +265,7 @@ theorem flush_ok (m : State) (j : Mon) (D : List Nat) (h : RelP D m j) :
     (by rw [t4, h.ev]; exact hmapE.symm) (by rw [t6, h.cur]; exact hmapV.symm)
     (by rw [t11]
         exact SubsOk.congr (m' := { m with vars := vars1 }) _ h.subs rfl rfl (Int.le_refl _)
-          (fun _ => ⟨rfl, rfl, rfl, rfl, rfl⟩))
+          (fun sm => ⟨(hg sm).1, (hg sm).2.1, (hg sm).2.2.1, (hg sm).2.2.2.1, (hg sm).2.2.2.2.1⟩))
     (by intro s _ sm hsm
         rw [t11, List.getElem?_map] at hsm
         cases hj : j.subs[s.sid]? with
@@ -266,7 +274,7 @@ theorem flush_ok (m : State) (j : Mon) (D : List Nat) (h : RelP D m j) :
           rw [hj] at hsm
           simp only [Option.map_some, Option.some.injEq] at hsm
           subst hsm
-          show 0 + _ ≤ sm0.credit + _
+          rw [(hg sm0).2.2.2.2.2.2]
           omega)
   obtain ⟨bf, bnow, bvars, bnsid, bsubs, bcv⟩ := hB
   rw [hrun, hfst]
@@ -279,7 +287,7 @@ theorem flush_ok (m : State) (j : Mon) (D : List Nat) (h : RelP D m j) :
   · rw [bf.rate, t5, h.rate, bvars]; exact hmapR.symm
   · rw [bf.cur, t6, h.cur, bvars]; exact hmapV.symm
   · rw [bf.lastChange, t7, bvars]; show _ = vars1.length; rw [hlen]; exact h.lcLen
-  · rw [bf.lastChange, bf.lastTrig, t7, bvars, bnow]
+  · rw [bf.lastChange, bf.lastTrig, bf.pendingChg, t7, bvars, bnow]
     intro i v' hv'
     have hv'' : vars1[i]? = some v' := hv'
     rw [hget] at hv''
@@ -291,11 +299,13 @@ theorem flush_ok (m : State) (j : Mon) (D : List Nat) (h : RelP D m j) :
       have hvo := h.vars i v hv
       by_cases hi : i ∈ D
       · rw [if_pos hi] at hv''; subst hv''
-        obtain ⟨w, hw, _, hwd, _⟩ := h.pnd i hi
+        obtain ⟨w, hw, _, hwd, _, _⟩ := h.pnd i hi
         rw [hv] at hw; cases hw
-        exact ⟨Int.le_refl _, Or.inr (t9 i hi), fun g hg => by rw [show ({ v with lastSent := m.now } : Var).deferred = v.deferred from rfl, hwd] at hg; cases hg⟩
+        obtain ⟨n, hn⟩ := t13 i hi
+        exact ⟨Int.le_refl _, Or.inr (t9 i hi), fun g hg => (by rw [show ({ v with lastSent := m.now } : Var).deferred = v.deferred from rfl, hwd] at hg; cases hg),
+          ⟨n, hn, fun hd' => absurd hwd hd'⟩⟩
       · rw [if_neg hi] at hv''; subst hv''
-        exact ⟨hvo.sent_le, by rw [t10 i hi]; exact hvo.trig, hvo.dfr⟩
+        exact ⟨hvo.sent_le, by rw [t10 i hi]; exact hvo.trig, hvo.dfr, by rw [t12 i hi]; exact hvo.pc⟩
   · intro s hs sm hsm i v hv he hd
     obtain ⟨_, hl⟩ := bcv s hs sm hsm
     rw [bvars] at hv
